@@ -11,6 +11,7 @@ CONTRACTS = {
     'C04': 'contracts.c04',
     'C05': 'contracts.c05',
     'C06': 'contracts.c06',
+    'C07': 'contracts.c07',
     'C11': 'contracts.c11',
     'C13': 'contracts.c13',
 }
